@@ -289,6 +289,7 @@ int main(int argc, char **argv) {
                 for (int i = 0; i < n; ++i) t.push_back(r.chance(0.1) ? 0x20 : r.pick(ar.empty() ? rep : ar));
             }
             int dir = dirs[r.below(8)];
+            if (a.geti("fixdir", -1) >= 0 && !lines.empty()) { t = lines[size_t(k) % lines.size()]; dir = int(a.geti("fixdir", 1)); }    // witness replay
             set_case(k, "pipeline font=%s dir=%d text=%s", fontpath.c_str(), dir, cps_str(t, 24).c_str());
             cpu_budget_ms(60000);
             Text tx;
